@@ -22,7 +22,61 @@ func (vc *VC) newFrame(fn *ssa.Function, spec *FuncSpec, parent *Frame) *Frame {
 		callOrd: map[string]int{}, bind: map[string]*ssa.Function{}, bindVal: map[string]Val{}}
 	fr.analyzeEscapes()
 	fr.findLoops()
+	fr.computeOrdinals()
 	return fr
+}
+
+// computeOrdinals numbers calls, dynamic calls, map updates and sends in source order
+func (fr *Frame) computeOrdinals() {
+	fr.ordinal = map[ssa.Instruction]int{}
+	type item struct {
+		in   ssa.Instruction
+		kind string
+		bi, ii int
+	}
+	var items []item
+	for bi, b := range fr.fn.Blocks {
+		for ii, in := range b.Instrs {
+			switch x := in.(type) {
+			case ssa.CallInstruction:
+				c := x.Common()
+				if _, isB := c.Value.(*ssa.Builtin); isB {
+					continue
+				}
+				kind := ""
+				if c.IsInvoke() {
+					kind = "call:" + c.Method.Name()
+				} else if f := fr.vc.staticFn(fr, c.Value, 0); f != nil || c.StaticCallee() != nil {
+					if f == nil {
+						f = c.StaticCallee()
+					}
+					kind = "call:" + f.Name()
+				} else {
+					kind = "dyncall"
+				}
+				items = append(items, item{in, kind, bi, ii})
+			case *ssa.MapUpdate:
+				items = append(items, item{in, "mapupdate", bi, ii})
+			case *ssa.Send:
+				items = append(items, item{in, "send", bi, ii})
+			}
+		}
+	}
+	sort.SliceStable(items, func(i, j int) bool {
+		pi, pj := items[i].in.Pos(), items[j].in.Pos()
+		if pi != pj && pi.IsValid() && pj.IsValid() {
+			return pi < pj
+		}
+		if items[i].bi != items[j].bi {
+			return items[i].bi < items[j].bi
+		}
+		return items[i].ii < items[j].ii
+	})
+	cnt := map[string]int{}
+	for _, it := range items {
+		cnt[it.kind]++
+		fr.ordinal[it.in] = cnt[it.kind]
+	}
 }
 
 func (fr *Frame) count(kind string) int {
@@ -239,12 +293,30 @@ func (vc *VC) execBody(fr *Frame, st0 *State, guard0 string) {
 	for i, j := 0, len(order)-1; i < j; i, j = i+1, j-1 {
 		order[i], order[j] = order[j], order[i]
 	}
+	if fr.parent == nil {
+		vc.anc = map[int]map[int]bool{}
+		for _, b := range order {
+			s := map[int]bool{b.Index: true}
+			for _, p := range b.Preds {
+				if fr.isBackEdge(p, b) {
+					continue
+				}
+				for a := range vc.anc[p.Index] {
+					s[a] = true
+				}
+			}
+			vc.anc[b.Index] = s
+		}
+	}
 	ins := map[*ssa.BasicBlock][]edgeIn{}
 	ins[fn.Blocks[0]] = []edgeIn{{guard0, st0, nil}}
 	for _, b := range order {
 		in := ins[b]
 		if len(in) == 0 {
 			continue
+		}
+		if fr.parent == nil {
+			vc.curBlock = b.Index
 		}
 		st, reach := vc.mergeEdges(fr, b, in)
 		if li := fr.loops[b]; li != nil {
@@ -255,6 +327,16 @@ func (vc *VC) execBody(fr *Frame, st0 *State, guard0 string) {
 			vc.execInstr(fr, st, reach, instr, b, ins)
 		}
 	}
+}
+
+// joinTerm defines a join value as a nested ite over the incoming edge guards (an unconditional equality:
+// guarded equalities between arrays make the solver split on array extensionality)
+func (vc *VC) joinTerm(j string, guards []string, terms []string) {
+	t := terms[len(terms)-1]
+	for i := len(terms) - 2; i >= 0; i-- {
+		t = "(ite " + guards[i] + " " + terms[i] + " " + t + ")"
+	}
+	vc.assume("(= " + j + " " + t + ")")
 }
 
 func (vc *VC) mergeEdges(fr *Frame, b *ssa.BasicBlock, in []edgeIn) (*State, string) {
@@ -298,9 +380,11 @@ func (vc *VC) mergeEdges(fr *Frame, b *ssa.BasicBlock, in []edgeIn) (*State, str
 		}
 		if !same {
 			j := vc.fresh("j_"+c.Name, vc.S.sortOf(c.T))
+			var ts []string
 			for _, e := range in {
-				vc.assumeG(e.guard, "(= "+j+" "+e.st.locals[c]+")")
+				ts = append(ts, e.st.locals[c])
 			}
+			vc.joinTerm(j, gs, ts)
 			st.locals[c] = j
 		}
 	}
@@ -327,9 +411,7 @@ func (vc *VC) mergeEdges(fr *Frame, b *ssa.BasicBlock, in []edgeIn) (*State, str
 			continue
 		}
 		j := vc.fresh("j_"+n, vc.heapSort[n])
-		for i, e := range in {
-			vc.assumeG(e.guard, "(= "+j+" "+terms[i]+")")
-		}
+		vc.joinTerm(j, gs, terms)
 		st.heaps[n] = j
 	}
 	// ghosts
@@ -356,9 +438,7 @@ func (vc *VC) mergeEdges(fr *Frame, b *ssa.BasicBlock, in []edgeIn) (*State, str
 		}
 		g := vc.P.ghosts[n]
 		j := vc.fresh("j_g_"+n, vc.S.tySort(vc.tyOfTypeExprL(g.Type, true)))
-		for i, e := range in {
-			vc.assumeG(e.guard, "(= "+j+" "+terms[i]+")")
-		}
+		vc.joinTerm(j, gs, terms)
 		st.ghosts[n] = j
 	}
 	// alloc
@@ -370,9 +450,11 @@ func (vc *VC) mergeEdges(fr *Frame, b *ssa.BasicBlock, in []edgeIn) (*State, str
 	}
 	if !sameA {
 		j := vc.fresh("alloc", "Int")
+		var ts []string
 		for _, e := range in {
-			vc.assumeG(e.guard, "(= "+j+" "+e.st.alloc+")")
+			ts = append(ts, e.st.alloc)
 		}
+		vc.joinTerm(j, gs, ts)
 		st.alloc = j
 	}
 	// defers must agree
@@ -1267,7 +1349,9 @@ func (vc *VC) execSlice(fr *Frame, st *State, reach string, x *ssa.Slice) {
 		}
 		vc.safety(fr, "slice", reach, "(and (<= 0 "+lo+") (<= "+lo+" "+hi+") (<= "+hi+" (slen "+s+")))", "slice bounds out of range at "+posOf(fr, x)+": "+x.String())
 		vc.S.useStr("ssub")
-		fr.regs[x] = Val{T: x.Type(), S: vc.define(x.Name(), "Str", "(ssub "+s+" "+lo+" "+hi+")")}
+		r := vc.define(x.Name(), "Str", "(ssub "+s+" "+lo+" "+hi+")")
+		vc.ssubFacts(r, s, lo, hi)
+		fr.regs[x] = Val{T: x.Type(), S: r}
 	case *types.Pointer:
 		at, ok := under(u.Elem()).(*types.Array)
 		hiOK := x.High == nil
@@ -1331,7 +1415,7 @@ func (vc *VC) execMapUpdate(fr *Frame, st *State, reach string, x *ssa.MapUpdate
 	rec := "(select " + h + " " + m + ")"
 	nrec := fmt.Sprintf("(mk_%s (store (%s__dom %s) %s true) (store (%s__val %s) %s %s) (ite (select (%s__dom %s) %s) (%s__card %s) (+ (%s__card %s) 1)))", ms, ms, rec, k, ms, rec, k, v, ms, rec, k, ms, rec, ms, rec)
 	vc.setHeap(st, hn, "(store "+h+" "+m+" "+nrec+")")
-	vc.ghostPoint(fr, st, reach, "after", "mapupdate", fr.count("mapupdate"), "")
+	vc.ghostPoint(fr, st, reach, "after", "mapupdate", fr.ordinal[x], "")
 }
 
 func (vc *VC) execRange(fr *Frame, st *State, reach string, x *ssa.Range) {
@@ -1349,7 +1433,7 @@ func (vc *VC) execRange(fr *Frame, st *State, reach string, x *ssa.Range) {
 	it.n = vc.fresh("n", "Int")
 	vc.nfresh++
 	it.pos = fmt.Sprintf("pos!%d", vc.nfresh)
-	vc.lines = append(vc.lines, fmt.Sprintf("(declare-fun %s (%s) Int)", it.pos, ks))
+	vc.emit(fmt.Sprintf("(declare-fun %s (%s) Int)", it.pos, ks))
 	it.dom0 = vc.define("dom0", "(Array "+ks+" Bool)", fmt.Sprintf("(ite (= %s 0) ((as const (Array %s Bool)) false) (%s__dom %s))", m, ks, ms, rec))
 	vc.assume(fmt.Sprintf("(= %s (ite (= %s 0) 0 (%s__card %s)))", it.n, m, ms, rec))
 	vc.assume("(>= " + it.n + " 0)")
@@ -1387,7 +1471,7 @@ func (vc *VC) execNext(fr *Frame, st *State, reach string, x *ssa.Next) {
 
 func (vc *VC) execSend(fr *Frame, st *State, reach string, x *ssa.Send) {
 	// modelled as an append to the ghost trace sendTrace (if declared): (chan, value)
-	n := fr.count("send")
+	n := fr.ordinal[x]
 	vc.ghostPoint(fr, st, reach, "before", "send", n, "")
 	if _, ok := vc.P.ghosts["sendLen"]; ok {
 		ch := vc.valTerm(vc.operand(fr, x.Chan))
@@ -1410,3 +1494,11 @@ func (vc *VC) execSend(fr *Frame, st *State, reach string, x *ssa.Send) {
 }
 
 var _ = constant.MakeBool
+
+// ssubFacts: ground instances of the substring axioms for one substring term
+func (vc *VC) ssubFacts(r, s, lo, hi string) {
+	ok := "(and (<= 0 " + lo + ") (<= " + lo + " " + hi + ") (<= " + hi + " (slen " + s + ")))"
+	vc.assume("(=> " + ok + " (= (slen " + r + ") (- " + hi + " " + lo + ")))")
+	vc.assume("(=> (and " + ok + " (< " + lo + " " + hi + ")) (and (= (sat " + r + " 0) (sat " + s + " " + lo + ")) (= (sat " + r + " (- (- " + hi + " " + lo + ") 1)) (sat " + s + " (- " + hi + " 1)))))")
+	vc.assume("(=> (and (= " + lo + " 0) (= " + hi + " (slen " + s + "))) (= " + r + " " + s + "))")
+}
